@@ -151,8 +151,8 @@ class UdpInverterProtocol(InverterProtocol, asyncio.DatagramProtocol):
                 self._partial_missing = 0
             if self.command.validator(data):
                 logger.debug("Received: %s", data.hex())
-                self._retry = 0
                 self.response_future.set_result(data)
+                self._retry = 0
             else:
                 logger.debug("Received invalid response: %s", data.hex())
                 asyncio.get_running_loop().call_soon(self._timeout_mechanism)
@@ -295,8 +295,8 @@ class TcpInverterProtocol(InverterProtocol, asyncio.Protocol):
                 self._partial_missing = 0
             if self.command.validator(data):
                 logger.debug("Received: %s", data.hex())
-                self._retry = 0
                 self.response_future.set_result(data)
+                self._retry = 0
             else:
                 logger.debug("Received invalid response: %s", data.hex())
                 self.response_future.set_exception(RequestRejectedException())
